@@ -30,11 +30,16 @@ type Request struct {
 	Scope    int    `json:"scope"`              // -1 = nil key scope, else index into 44/49/84/86
 	Account  uint32 `json:"account"`            //
 	MinConf  int32  `json:"minconf"`            //
-	Amount   string `json:"amount"`             // small | most
+	Amount   string `json:"amount"`             // small | most | edgeNN | two | all (the last two: see amountFor)
 	FeeRate  int64  `json:"fee_rate"`           // sat/kvB
-	Strategy []int  `json:"strategy,omitempty"` // nil = CoinSelectionLargest, else preference order of the state's coins
-	Select   []int  `json:"select,omitempty"`   // explicit input selection (indexes of the state's coins)
-	DryRun   bool   `json:"dry_run,omitempty"`  //
+	Strategy []int  `json:"strategy,omitempty"` // nil = a built-in strategy, else preference order of the state's coins
+	// Builtin selects the wallet's exported strategy when Strategy is nil:
+	// "" = wallet.CoinSelectionLargest, "random" = wallet.CoinSelectionRandom
+	// (arranges by rand.Shuffle: such a request is REPEATED, Rep counts).
+	Builtin string `json:"builtin_strategy,omitempty"`
+	Rep     int    `json:"repetition,omitempty"`
+	Select  []int  `json:"select,omitempty"`  // explicit input selection (indexes of the state's coins)
+	DryRun  bool   `json:"dry_run,omitempty"` //
 	// Resync, when non-nil, makes the wallet resynchronise BEFORE this
 	// request: one rebroadcast answer ("accept" | "mempool") per
 	// transaction that is still unconfirmed at that moment.
@@ -63,6 +68,8 @@ func (r *Request) String() string {
 	s := fmt.Sprintf("%s(scope=%s acct=%d minconf=%d amount=%s fee=%d", r.Entry, sc, r.Account, r.MinConf, r.Amount, r.FeeRate)
 	if r.Strategy != nil {
 		s += fmt.Sprintf(" strategy=order%v", r.Strategy)
+	} else if r.Builtin == "random" {
+		s += fmt.Sprintf(" strategy=random(repetition %d)", r.Rep)
 	} else if len(r.Select) == 0 {
 		s += " strategy=largest"
 	}
@@ -230,8 +237,20 @@ func (w *world) exec(r *Request, keep bool, st *stats) (fs []finding) {
 			return nil
 		}
 	}
+	if r.Amount == "two" || r.Amount == "all" {
+		var ok bool
+		if amt, ok = w.amountFor(r, reasons); !ok {
+			if st != nil {
+				st.skipped++
+			}
+			return nil
+		}
+	}
 	outputs := []*wire.TxOut{wire.NewTxOut(amt, append([]byte{}, destPk...))}
 	var strat wallet.CoinSelectionStrategy = wallet.CoinSelectionLargest
+	if r.Builtin == "random" {
+		strat = wallet.CoinSelectionRandom
+	}
 	if r.Strategy != nil {
 		ps := &permStrategy{w: w, rank: map[int]int{}}
 		for pos, idx := range r.Strategy {
@@ -310,6 +329,13 @@ func (w *world) exec(r *Request, keep bool, st *stats) (fs []finding) {
 	if st != nil {
 		st.requests++
 		st.byEntry[r.Entry]++
+		if r.Strategy == nil && !explicit {
+			if r.Builtin == "random" {
+				st.randomRequests++
+			} else if hasSmall(w.specs) {
+				st.largestFamilyRequests++
+			}
+		}
 		for _, cn := range w.coins[:w.nbase] {
 			st.byStatus[statusNames[cn.Status]]++
 		}
@@ -376,6 +402,9 @@ func (w *world) exec(r *Request, keep bool, st *stats) (fs []finding) {
 			}
 			st.samples = append(st.samples, fmt.Sprintf("state %s: %s => ok inputs=%v", specsString(w.specs), r, ins))
 		}
+	}
+	if st != nil && r.Builtin == "random" && r.Strategy == nil {
+		st.noteRandom(w, r, tx)
 	}
 	seen := map[wire.OutPoint]bool{}
 	unknown := false
@@ -545,4 +574,83 @@ func (w *world) ownerOf(pk []byte) (int, uint32, bool) {
 		}
 	}
 	return 0, 0, false
+}
+
+// yieldsPositively says whether spending the coin pays for its own input at the
+// fee rate (the notion the wallet's random strategy filters by); it shapes
+// REQUESTS only (which amounts need how many coins), never the oracle.
+func yieldsPositively(cn *coin, feeRate int64) bool {
+	return feeRate*int64(txsizes.GetMinInputVirtualSize(cn.pkScript))/1000 < cn.amount
+}
+
+// amountFor computes the amounts of the built-in strategy family from the
+// oracle's eligible coins that yield positively at the fee rate (P):
+// "two" = the largest coin of P + 50000 sat (no single coin suffices: at least
+// two inputs, whatever the arrangement), "all" = sum(P) minus the fee of a
+// transaction spending all of P with the largest change script (every coin of P
+// is needed). ok is false when P cannot pay the amount.
+func (w *world) amountFor(r *Request, reasons map[*coin]string) (int64, bool) {
+	var sum, max int64
+	var n [4]int
+	cnt := 0
+	for _, cn := range w.coins {
+		if reasons[cn] != "" || !yieldsPositively(cn, r.FeeRate) {
+			continue
+		}
+		cnt++
+		sum += cn.amount
+		if cn.amount > max {
+			max = cn.amount
+		}
+		n[typeOfScriptSafe(cn.pkScript)]++
+	}
+	if cnt == 0 {
+		return 0, false
+	}
+	probe := []*wire.TxOut{wire.NewTxOut(smallAmount, append([]byte{}, destPk...))}
+	fee := int64(txrules.FeeForSerializeSize(btcutil.Amount(r.FeeRate),
+		txsizes.EstimateVirtualSize(n[0], n[3], n[2], n[1], probe, txsizes.P2TRPkScriptSize)))
+	all := sum - fee
+	switch r.Amount {
+	case "two":
+		amt := max + 50000
+		return amt, cnt >= 2 && amt <= all
+	default:
+		return all, all >= smallAmount
+	}
+}
+
+// noteRandom records the order of the inputs of a successful request with the
+// wallet's random strategy.
+func (st *stats) noteRandom(w *world, r *Request, tx *wire.MsgTx) {
+	var ins []string
+	for _, in := range tx.TxIn {
+		if cn := w.prev[in.PreviousOutPoint]; cn != nil {
+			ins = append(ins, fmt.Sprintf("coin%d", cn.idx))
+		} else {
+			ins = append(ins, "?")
+		}
+	}
+	order := strings.Join(ins, ">")
+	st.randomOK++
+	st.randomInputs[fmt.Sprintf("%d-input", len(ins))]++
+	if r.Entry == "FundPsbt" {
+		return // FundPsbt sorts the inputs of its packet: their order says nothing about the arrangement
+	}
+	st.randomOrders[order] = true
+	st.randomStateOrders[specsString(w.specs)+"|"+order] = true
+	rc := *r
+	rc.Rep = 0
+	g := specsString(w.specs) + " " + rc.String()
+	if st.randomGroups[g] == nil {
+		st.randomGroups[g] = map[string]bool{}
+		st.randomGroupMax[g] = 0
+	}
+	st.randomGroups[g][order] = true
+	if len(ins) > st.randomGroupMax[g] {
+		st.randomGroupMax[g] = len(ins)
+	}
+	if len(st.randomSamples) < 2 && len(ins) >= 2 && r.Rep == 7 {
+		st.randomSamples = append(st.randomSamples, fmt.Sprintf("state %s: %s => ok inputs in this order: %s", specsString(w.specs), r, order))
+	}
 }
